@@ -57,11 +57,12 @@ RULE = ("One case = JSON description of one ADAS file plus the call forms: forma
         "-99.99999, 0, 99.99999) and an integer seed; every number of the file is a pure function (splitmix64) of the seed, drawn "
         "on the lattice of the printed precision (F10.5: k*1e-5; 1PE9.2 / 1PD10.2 / 1PE10.3: integer mantissa and exponent), so the "
         "text is exact. Call forms: install_adf* directly (keyword or positional arguments) or through install_files (key in "
-        "lower/upper/mixed case), download omitted / False / True with the file under adas_path / True with the file in "
-        "<repository>/_download_cache, repository_path explicit or omitted (default under the scratch HOME), charges as int or "
+        "lower/upper/mixed case), download omitted / False / True with the file under adas_path / True with the file only in "
+        "<repository>/_download_cache (the cache copy is used, no network) / True with the file under adas_path AND a stale copy "
+        "with other numbers under the same relative path in the cache (the adas_path file must win), repository_path explicit or omitted (default under the scratch HOME), charges as int or "
         "numpy.int64, transitions as ints or strings. Sub-checks: adf11 (scd/acd/ccd/plt/prb/prc, resolved and unresolved, ccd "
         "donors H/D/He), adf15 (hydrogen / hydrogen-like / full-configuration comment index, auto-detected or forced with "
-        "header_format - also against the automatic choice -, EXCIT/RECOM/CHEXC), adf12, adf2x (adf21, adf22 bmp, adf22 bme, "
+        "header_format - also against the automatic choice -, EXCIT/RECOM/CHEXC; index wavelengths with 1-5 integer digits and 1-4 decimals of an Angstrom in every style), adf12, adf2x (adf21, adf22 bmp, adf22 bme, "
         "parse_adas2x_rate and readvalues called directly), negative (ADF11 header mismatch: other element / name only / Z only / "
         "isotope requested for an element file; ADF15 index entry without data block; file_path that does not exist for each of "
         "the 11 install_* and install_files; and - generated only while finding C08-header-unchecked is not open - an "
@@ -89,7 +90,7 @@ TOLERANCES = {"all tables": "1e-12 relative, element-wise: both sides convert th
                             "conversions are one multiplication (x1e6, x1e-6, /10) or one pow (10**x): <= a few ulp (2.2e-16) apart",
               "re-use": "bit-identical (same function, same file)"}
 
-_FORM_LABELS = ["via:direct", "via:files", "call:kw", "call:pos", "dl:false", "dl:omit", "dl:true-adas", "dl:cache", "repo:explicit",
+_FORM_LABELS = ["via:direct", "via:files", "call:kw", "call:pos", "dl:false", "dl:omit", "dl:true-adas", "dl:cache", "dl:stale-cache", "repo:explicit",
                 "repo:default"]
 REQUIRED_LABELS = (
     ["adf11:" + x for x in ["resolved", "unresolved", "te<1eV", "nd<=8", "blocks>=10", "second:same-class", "second:other-class",
@@ -108,6 +109,10 @@ REQUIRED_LABELS = (
     + [sub + ":" + x for sub in ("adf11", "adf15", "adf12", "adf2x")
        for x in ("interference:parse", "interference:install-alternate", "repeat", "order:A-first", "order:B-first", "second:bigger",
                  "second:smaller")]
+    + [sub + ":" + dl + ":" + fn for dl in ("cache", "stale-cache") for sub, fns in (
+        ("adf11", ["install_adf11" + c for c in ("scd", "acd", "ccd", "plt", "prb", "prc")] + ["install_files"]),
+        ("adf15", ["install_adf15", "install_files"]), ("adf12", ["install_adf12", "install_files"]),
+        ("adf2x", ["install_adf21", "install_adf22bmp", "install_adf22bme", "install_files"])) for fn in fns]
     + ["negative:" + x for x in ["adf11-element", "adf15-absent", "missing-file", "adf11-how:other", "adf11-how:name", "adf11-how:z",
                                  "adf11-how:isotope"]])
 
@@ -126,7 +131,7 @@ _small = st.one_of(st.integers(1, 16), st.sampled_from([1, 2, 8, 9, 24]))      #
 TRAILER = ["C", "C  Written by the C08 oracle (vf/oracles/adf_writers.py); numbers are synthetic.", "C",
            "C  PRODUCER : verif", "C  DATE     : 28/09/26", "C"]
 _forms = st.fixed_dictionaries({"via": st.sampled_from(["direct", "direct", "files"]), "call": st.sampled_from(["kw", "pos"]),
-                                "dl": st.sampled_from(["false", "omit", "true-adas", "cache"]),
+                                "dl": st.sampled_from(["false", "omit", "true-adas", "cache", "stale-cache", "stale-cache"]),
                                 "repo": st.sampled_from(["explicit", "explicit", "default"]),
                                 "key": st.sampled_from(["lower", "upper", "mixed"])})
 PLAIN = {"via": "direct", "call": "kw", "dl": "false", "repo": "explicit", "key": "lower"}
@@ -246,14 +251,15 @@ class Env:
     """temp dir with adas/, repo/ and repo2/; the file of the case sits under adas/<rel> or, for dl == 'cache', under
     <repository>/_download_cache/<rel> (adas_path is then not passed)."""
 
-    def __init__(self, rel, text, forms):
-        self.rel, self.text, self.forms = rel, text, forms
+    def __init__(self, rel, text, forms, stale=None):
+        self.rel, self.text, self.forms, self.stale = rel, text, forms, stale
 
     def __enter__(self):
         _reset_home()
         self.top = tempfile.mkdtemp(prefix="vf_c08_")
-        self.adas, self.repo, self.repo2, self.repo3 = (os.path.join(self.top, n) for n in ("adas", "repo", "repo2", "repo3"))
-        for p in (self.adas, self.repo, self.repo2, self.repo3):
+        self.adas, self.repo, self.repo2, self.repo3, self.repo4, self.repo5 = (
+            os.path.join(self.top, n) for n in ("adas", "repo", "repo2", "repo3", "repo4", "repo5"))
+        for p in (self.adas, self.repo, self.repo2, self.repo3, self.repo4, self.repo5):
             os.makedirs(p)
         default = self.forms["repo"] == "default"
         self.repo_arg = None if default else self.repo          # what is passed to install_* / get_*
@@ -263,6 +269,9 @@ class Env:
         else:
             self.path, self.adas_arg = os.path.join(self.adas, self.rel), self.adas
         self.add(self.path, self.text)
+        if self.forms["dl"] == "stale-cache" and self.stale is not None:
+            # an earlier download left ANOTHER file under the same relative path in the cache; the file under adas_path must win
+            self.add(os.path.join(self.root, "_download_cache", self.rel), self.stale)
         self.adas_files = _files(self.adas)
         return self
 
@@ -304,15 +313,18 @@ def _spell(key, how):
     return key.upper() if how == "upper" else key if how == "lower" else "".join(c.upper() if i % 2 else c for i, c in enumerate(key))
 
 
-def _install(ctx, fname, args, env, forms, header_format=None, rel=None, repo_arg="same"):
+def _install(ctx, fname, args, env, forms, header_format=None, rel=None, repo_arg="same", adas="auto"):
     """call install_<...>(*args, file_path, ...) in the form described by `forms`; labels the entry point"""
     rel = env.rel if rel is None else rel
     repo = env.repo_arg if repo_arg == "same" else repo_arg
     dl = forms["dl"]
-    download = dl in ("true-adas", "cache")
-    adas = None if dl == "cache" else env.adas
+    download = dl in ("true-adas", "cache", "stale-cache")
+    if adas == "auto":
+        adas = None if dl == "cache" else env.adas
     via = forms["via"] if header_format is None else "direct"       # install_files has no way to pass header_format
     ctx.label("via:" + via, "call:" + forms["call"], "dl:" + dl, "repo:" + forms["repo"])
+    if dl in ("cache", "stale-cache"):
+        ctx.label("%s:%s" % (dl, "install_files" if via == "files" else fname))
     if via == "files":
         ctx.label("ep:install_files")
         key = _spell(fname.replace("install_", ""), forms["key"])
@@ -424,6 +436,32 @@ def _alternate(ctx, env, what, install_a, install_b, read_a, check_b, absent_a, 
         after = _snap(read_a())
     ctx.check(after == before, "interference/install/reinstall", "re-installing the same file changed what the repository returns")
     ctx.label("interference:install-alternate")
+
+
+def _cache_scenarios(ctx, env, fname, args, header_format, check):
+    """_locate_adas_file with download=True, for this front-end, in two fresh repositories:
+    stale: the file is under adas_path AND another file (the second file's text) sits under the same relative path in
+           <repository>/_download_cache (left by an earlier download) -> the adas_path file is installed;
+    cache: the file is absent under adas_path and present in the cache -> the cache copy is installed, no network is touched."""
+    via = env.forms["via"] if header_format is None else "direct"
+    other = "direct" if via == "files" or header_format is not None else "files"
+    rel_s, rel_c = "stale/" + env.rel, "cacheonly/" + env.rel
+    env.add(os.path.join(env.adas, rel_s), env.text)
+    env.adas_files = _files(env.adas)
+    env.add(os.path.join(env.repo4, "_download_cache", rel_s), env.stale)
+    env.add(os.path.join(env.repo5, "_download_cache", rel_c), env.text)
+    with ctx.cut(fname + "(download=True, stale copy in the cache)"):
+        _install(ctx, fname, args, env, dict(env.forms, via=via, dl="stale-cache", repo="explicit"), header_format=header_format, rel=rel_s,
+                 repo_arg=env.repo4)
+    check(env.repo4, "stale-cache/")
+    with ctx.cut(fname + "(download=True, file only in the cache)"):
+        _install(ctx, fname, args, env, dict(env.forms, via=other, dl="cache", repo="explicit"), header_format=header_format, rel=rel_c,
+                 repo_arg=env.repo5, adas=env.adas if env.forms["call"] == "kw" else None)
+    check(env.repo5, "cache-only/")
+    with open(os.path.join(env.repo4, "_download_cache", rel_s)) as f:
+        ctx.check(f.read() == env.stale, "caller-owned/cache", "install rewrote the cached copy")
+    if env.forms["repo"] == "explicit":
+        _no_stray(ctx, fname + "(download=True)")
 
 
 def _bigger(ctx, na, nb):
@@ -629,7 +667,7 @@ def run_adf11(case, ctx):
     ctx.label("second:same-class" if case2["cls"] == cls else "second:other-class")
     _bigger(ctx, case["nd"] * case["nt"] * case["nblk"], case2["nd"] * case2["nt"] * case2["nblk"])
     plain = dict(PLAIN, repo=forms["repo"])
-    with Env(rel, text, forms) as env:
+    with Env(rel, text, forms, stale=text2) as env:
         path2 = env.second(rel2, text2)
         # ---- parser: log10 values in file units, table indexed (density, temperature), keyed by the Z1 of the block
         ctx.label("ep:parse_adf11")
@@ -667,6 +705,8 @@ def run_adf11(case, ctx):
                    lambda: [_get_adf11(case, el, b["z1"] + ADF11[cls][0], env.repo_arg) for b in sample],
                    lambda repo: _check_repo_adf11(ctx, case2, d2, el, repo, "alternate/second/", absent=False, sample=True),
                    absent_a, first == "B")
+        _cache_scenarios(ctx, env, ADF11[cls][1], _args_adf11(case, el), None,
+                         lambda repo, tag: _check_repo_adf11(ctx, case, d, el, repo, tag, absent=False, sample=True))
         env.check_sources(ctx)
 
 
@@ -741,7 +781,10 @@ def build_adf15(case):
     for i, c in enumerate(case["blocks"]):
         key = (c["up"], c["lo"])
         if key not in wl:
-            wl[key] = W.Stream(case["seed"], 1000 + 100 * c["up"] + c["lo"]).between(100, 99999)   # tenths of an Angstrom
+            # index field WAVELENGTH is 10 characters: 1-5 integer digits (a few A .. 1e5 A), 1-4 decimals
+            sw = W.Stream(case["seed"], 1000 + 100 * c["up"] + c["lo"])
+            k, nd_ = sw.between(1, 5), sw.between(1, 4)
+            wl[key] = "%d.%0*d" % (sw.between(10 ** (k - 1), 10 ** k - 1), nd_, sw.between(0, 10 ** nd_ - 1))
         ws = W.Stream(case["seed"], 2000 + i)
         dens = [W.efmt(m, e, 2, 9) for m, e in _grid_e(ws, c["nd"], 7, 16, 2)]
         temp = [W.efmt(m, e, 2, 9) for m, e in _grid_e(ws, c["nt"], -1, 4, 2)]
@@ -750,7 +793,8 @@ def build_adf15(case):
         else:
             table = [[W.efmt(ws.between(100, 999) if ws.between(0, 15) else 0, ws.between(-40, -5), 2, 9) for _ in range(c["nt"])]
                      for _ in range(c["nd"])]
-        blocks.append({"isel": case["isel0"] + i, "type": c["type"], "wl": wl[key], "upper": c["up"], "lower": c["lo"],
+        blocks.append({"isel": case["isel0"] + i, "type": c["type"], "wl_text": wl[key], "wl": float(wl[key]) * 10.0,   # 'wl' (tenths of A) kept for c06
+                       "upper": c["up"], "lower": c["lo"],
                        "dens": dens, "temp": temp, "table": table, "data": case.get("absent") != i})
     order = list(range(len(blocks)))
     if case["order"] == "reversed":
@@ -816,7 +860,7 @@ def _check_parse_adf15(ctx, case, expected, el, q, rates, wavelengths, tag):
         _eq(ctx, _item(ctx, g, "ne", tag + "parse/ne"), _vals(b["dens"]) * 1e6, tag + "parse/ne", info)
         _eq(ctx, _item(ctx, g, "te", tag + "parse/te"), _vals(b["temp"]), tag + "parse/te", info)
         _eq(ctx, _item(ctx, g, "rate", tag + "parse/rate"), _vals(b["table"]) * 1e-6, tag + "parse/rate", info)
-    want_wl = {t: (b["wl"] / 10.0) / 10.0 for _, t, b in expected}            # tenths of Angstrom -> Angstrom -> nm
+    want_wl = {t: float(b["wl_text"]) / 10.0 for _, t, b in expected}            # printed Angstrom value -> nm
     ctx.check(list(wavelengths.keys()) == [el] and list(wavelengths[el].keys()) == [q], tag + "parse/wavelength-key",
               lambda: "wavelengths keyed by %r" % (list(wavelengths.keys()),))
     gw = wavelengths[el][q]
@@ -874,7 +918,7 @@ def run_adf15(case, ctx):
     case2 = _second_adf15(case)
     d2, text2, expected2 = build_adf15(case2)
     _bigger(ctx, sum(b["nd"] * b["nt"] for b in case["blocks"]), sum(b["nd"] * b["nt"] for b in case2["blocks"]))
-    with Env(rel, text, forms) as env:
+    with Env(rel, text, forms, stale=text2) as env:
         path2 = env.second("second/" + rel, text2)
         ctx.label("ep:parse_adf15")
 
@@ -934,6 +978,8 @@ def run_adf15(case, ctx):
                    lambda: [_snap(fn(*a)) for fn, a in _readers_adf15(expected[:3], el, q, env.repo_arg)],
                    lambda repo: _check_repo_adf15(ctx, case2, expected2, want_wl2, el, q, repo, "alternate/second/"),
                    absent_a, first == "B")
+        _cache_scenarios(ctx, env, "install_adf15", (el, qa), hf,
+                         lambda repo, tag: _check_repo_adf15(ctx, case, expected[:3], want_wl, el, q, repo, tag))
         env.check_sources(ctx)
         _check_repo_adf15(ctx, case, expected[:2], want_wl, el, q, env.repo_arg, "after-second/")
 
@@ -1048,7 +1094,7 @@ def run_adf12(case, ctx):
     d2, text2 = build_adf12(case2)
     _bigger(ctx, sum(sum(c["n"]) for c in case["blocks"]), sum(sum(c["n"]) for c in case2["blocks"]))
     plain = dict(PLAIN, repo=forms["repo"])
-    with Env(rel, text, forms) as env:
+    with Env(rel, text, forms, stale=text2) as env:
         path2 = env.second("second/" + rel, text2)
         ctx.label("ep:parse_adf12")
         _interleave(ctx, "parse_adf12", first,
@@ -1085,6 +1131,8 @@ def run_adf12(case, ctx):
                    lambda repo: _check_repo_adf12(ctx, d2, don2, meta, rec, zr, repo, "alternate/second/"),
                    lambda repo: _absent(ctx, "interference/install/leak", R.get_beam_cx_rates, don, rec, zr, t_a, repo),
                    first == "B")
+        _cache_scenarios(ctx, env, "install_adf12", (don, meta, rec, zra), None,
+                         lambda repo, tag: _check_repo_adf12(ctx, d, don, meta, rec, zr, repo, tag))
         env.check_sources(ctx)
 
 
@@ -1214,7 +1262,7 @@ def run_adf2x(case, ctx):
         g = _get_twice(ctx, tag + "get/" + kind, lambda: _get_adf2x(kind, bm, meta, tgt, zt, tri, repo))
         for k, v in w.items():
             _eq(ctx, _item(ctx, g, k, tag + "repo/" + k), v, tag + "repo/" + k, inf)
-    with Env(rel, text, forms) as env:
+    with Env(rel, text, forms, stale=text2) as env:
         path2 = env.second("second/" + rel, text2)
         ctx.label("ep:" + PARSE2X[kind])
         _interleave(ctx, PARSE2X[kind], first,
@@ -1268,6 +1316,8 @@ def run_adf2x(case, ctx):
                    lambda repo: check_repo(beam2, want2, repo, "alternate/second/", ""),
                    lambda repo: _absent(ctx, "interference/install/leak", lambda *a: _get_adf2x(kind, *a), beam, meta, tgt, zt, tri, repo),
                    first == "B")
+        _cache_scenarios(ctx, env, INSTALL2X[kind], _args_adf2x(kind, beam, meta, tgt, zta, tr), None,
+                         lambda repo, tag: check_repo(beam, want, repo, tag, info))
         env.check_sources(ctx)
 
 
@@ -1379,7 +1429,7 @@ def run_negative(case, ctx):
         ctx.nt()
         fn = case["fn"]
         ctx.label("missing:" + fn, "where:" + case["where"])
-        forms = dict(forms, dl="false" if forms["dl"] in ("true-adas", "cache") else forms["dl"])     # never reach for the network
+        forms = dict(forms, dl="false" if forms["dl"] in ("true-adas", "cache", "stale-cache") else forms["dl"])     # never reach for the network
         d, text = build_adf11({"cls": "scd", "el": "carbon", "z1min": 1, "nblk": 1, "nd": 2, "nt": 2, "resolved": False, "ld0": 800000,
                                "lt0": 0, "dash": 80, "lead": "", "iprt": True, "project": 0, "seed": 1})
         with Env("adf11/scd96/scd96_c.dat", text, forms) as env:
